@@ -30,7 +30,7 @@ var srcBases = []struct {
 }
 
 // destination family. The first quickDst members are the quick tier's family.
-const quickDst = 8
+const quickDst = 5
 
 var dstFamily = []struct {
 	name string
@@ -39,12 +39,12 @@ var dstFamily = []struct {
 	{"unit-square", [8]float64{0, 0, 1, 0, 1, 1, 0, 1}},
 	{"rect-offset", [8]float64{5, 7, 13, 7, 13, 10, 5, 10}},
 	{"unit-rot90", [8]float64{1, 0, 1, 1, 0, 1, 0, 0}},
-	{"unit-mirrored", [8]float64{0, 0, 0, 1, 1, 1, 1, 0}},
-	{"diamond", [8]float64{4, 0, 8, 4, 4, 8, 0, 4}},
-	{"trapezoid-top-wide", [8]float64{0, 0, 10, 0, 8, 6, 2, 6}},
 	{"perspective-general", [8]float64{0, 0, 9, 1, 7, 8, -1, 6}},
 	{"qr-like-half-integers", [8]float64{3.5, 3.5, 17.5, 3.5, 14.5, 14.5, 3.5, 17.5}},
 	// thorough only from here
+	{"unit-mirrored", [8]float64{0, 0, 0, 1, 1, 1, 1, 0}},
+	{"diamond", [8]float64{4, 0, 8, 4, 4, 8, 0, 4}},
+	{"trapezoid-top-wide", [8]float64{0, 0, 10, 0, 8, 6, 2, 6}},
 	{"rect-21", [8]float64{0, 0, 21, 0, 21, 21, 0, 21}},
 	{"rect-177", [8]float64{0, 0, 177, 0, 177, 177, 0, 177}},
 	{"rect-8x3", [8]float64{0, 0, 8, 0, 8, 3, 0, 3}},
@@ -133,19 +133,26 @@ func checkMap(l *mc.Local, kind, suffix string, src, dst [8]float64, build func(
 	// probes
 	minx, miny, maxx, maxy := bbox(src)
 	var in, xs, ys, want []float64
+	ix := ex.integer()
+	var px, py [9]float64
+	var rx, ry [9]*big.Rat
+	for i := 0; i <= 8; i++ {
+		px[i] = minx + (maxx-minx)*float64(i)/8
+		py[i] = miny + (maxy-miny)*float64(i)/8
+		rx[i], ry[i] = rf(px[i]), rf(py[i]) // the model is evaluated at exactly the floats the library receives
+	}
 	for j := 0; j <= 8; j++ {
 		for i := 0; i <= 8; i++ {
-			x := minx + (maxx-minx)*float64(i)/8
-			y := miny + (maxy-miny)*float64(j)/8
-			u, v, den, mag := ex.apply(rf(x), rf(y))
-			if u == nil || rmul(rabs(den), ri(16, 1)).Cmp(mag) < 0 {
+			x, y := px[i], py[j]
+			U, horizon := ix.applyHInt(homogR(rx[i], ry[j]))
+			if horizon {
 				l.Count("probe-skipped-near-horizon", 1)
 				continue
 			}
 			in = append(in, x, y)
 			xs = append(xs, x)
 			ys = append(ys, y)
-			want = append(want, f64(u), f64(v))
+			want = append(want, quoF(U[0], U[2]), quoF(U[1], U[2]))
 		}
 	}
 	l.Count("probes-compared", int64(len(xs)))
@@ -230,13 +237,12 @@ func runTransform() {
 			}
 		})
 	// zero-length and one-float inputs must not panic
-	t := q2q(unitSquare, dstFamily[6].q)()
+	t := q2q(unitSquare, dstFamily[3].q)()
 	for _, n := range []int{0, 1} {
 		p := make([]float64, n)
 		if pm, site := mc.Guard(func() { t.TransformPoints(p); t.TransformPointsXY(nil, nil) }); pm != "" {
-			chk.Violation("C19/panic/"+site, fmt.Sprintf("panic %s in TransformPoints on %d floats", pm, n), rcase{Kind: "transform", Src: unitSquare, Dst: dstFamily[6].q})
+			chk.Violation("C19/panic/"+site, fmt.Sprintf("panic %s in TransformPoints on %d floats", pm, n), rcase{Kind: "transform", Src: unitSquare, Dst: dstFamily[3].q})
 		}
 	}
-	chk.Sample("transform", rcase{Kind: "transform", Src: [8]float64{0, 0, 8, 0, 6, 10, 2, 8}, Dst: dstFamily[6].q})
-	_ = big.NewRat
+	chk.Sample("transform", rcase{Kind: "transform", Src: [8]float64{0, 0, 8, 0, 6, 10, 2, 8}, Dst: dstFamily[3].q})
 }
